@@ -532,9 +532,8 @@ Definition h_eval (now : Z) (d : db) (parts : list frame) : frame * db :=
   | _ => (r_err, d)
   end.
 
-(** the database execute_database works on when the executor has no connection context
-    (the Lua path): conn_context.map(db_index).unwrap_or(0) *)
-Definition exec_database_db (script_db : Z) : Z := 0.
+(** the database execute_database works on: the script's own (after the repair e39f807) *)
+Definition exec_database_db (script_db : Z) : Z := script_db.
 
 (** dispatcher chained from Model/Server.v exec_db.  EVALSHA and SCRIPT need the script
     cache, which is runner state (Model/RunLua.v): reaching them here (inside EXEC) is outside
